@@ -326,7 +326,10 @@ func (db *SpecDB) loadFile(path, pkgPath string) error {
 			if err != nil {
 				return fail(err.Error())
 			}
-			db.SFuncs[sf.Name] = sf
+			db.SFuncs[pkgPath+"\x00"+sf.Name] = sf
+			if _, dup := db.SFuncs[sf.Name]; !dup || pkgPath == "" {
+				db.SFuncs[sf.Name] = sf // first definition (or the prelude) is the package-independent fallback
+			}
 			cur = nil
 		case "lemma":
 			rest = strings.TrimSpace(rest)
